@@ -12,7 +12,9 @@ func VerifC04_t_reincarnationDeep() {
 
 // BOUND: topology 0; two statefulset pods ss-0, ss-1 bound (symbolic policy); ss-0 disappears without its event being handled (so a resync pass has API calls to make); a resync pass runs and, atomically inside any one window right before/after one of its API-server calls (symbolic window 0..10), ss-1 is re-incarnated: deleted, its event handled, re-created with a new UID, filtered and bound on any approved node. Afterwards every live bound pod must still own its IP
 // ASSUME: C04: interference granularity = API-server calls: the second activity runs to completion inside one window of the first; interleavings in which it would have to wait for a lock the first holds are discarded
-func VerifC04_q_resyncVsReincarnation() {
+func VerifC04_q_resyncVsReincarnation() { vpResyncVsReincarnation("C04") }
+
+func vpResyncVsReincarnation(prop string) {
 	w := vpNewWorld(0, nondetBool())
 	if err := w.configure(); err != nil {
 		return
@@ -33,7 +35,7 @@ func VerifC04_q_resyncVsReincarnation() {
 		w.setRunning(name)
 	}
 	w.syncListers()
-	w.checkAll("C04", "setup")
+	w.checkAll(prop, "setup")
 	w.deletePodSilently("ss-0")
 	w.syncListers()
 	w.interferer = func() {
@@ -63,5 +65,23 @@ func VerifC04_q_resyncVsReincarnation() {
 	if ran {
 		verifReach("reincarnation-inside-resync")
 	}
-	w.checkAll("C04", "a resync pass that overlapped a re-incarnation")
+	w.checkAll(prop, "a resync pass that overlapped a re-incarnation")
+	// two more pods ask for the remaining IPs: an IP wrongly freed above would now be handed to one of them
+	w.setDeployment(2)
+	for i := 0; i < 2; i++ {
+		other := vpPodNameOf(vpKindDp, i)
+		w.createPod(vpMakePod(other, "V"+other, vpKindDp, "", "", ""))
+		w.syncListers()
+		if nodes, err := w.filter(other, "n1", "n5", "n3"); err == nil && len(nodes) > 0 {
+			if w.bind(other, nodes[0]) == nil {
+				w.setRunning(other)
+			}
+		}
+	}
+	w.syncListers()
+	w.checkAll(prop, "scheduling two more pods afterwards")
 }
+
+// BOUND: topology 0; a statefulset pod (symbolic policy) bound, then gone (deleted; its event handled or still pending) so that its IP is reserved or still recorded for the key; an administrator's API release of that IP runs while, as a second logical thread starting inside any one window right before/after an API-server or IPAM call of the release (symbolic window 0..12), the same-named pod is re-created with a new UID, filtered and bound; the second thread waits (parks) wherever it needs a pod/pool key lock the release holds; afterwards another pod is scheduled. No two live pods may hold one IP and every live bound pod must own its IP
+// ASSUME: C04: two logical threads as in VerifC01_q_releaseVsRebind (same scenario, checked under C04)
+func VerifC04_q_releaseVsRebind() { vpReleaseVsRebind("C04") }
